@@ -1134,7 +1134,7 @@ pub fn run(ctx: Ctx) -> ! {
     phase(&ctx, "L1a");
     // ---- L1a: all strings up to a length over the bracket alphabet
     let alpha_ids: Vec<char> = vec!['<', '>', '#', '[', ']', '{', '}', '0', '1', '9', 'a', 'f', 'g', '_', '-', 'é', '+'];
-    let max_len = ctx.pick(5, 6);
+    let max_len = ctx.pick(5, 7);
     strings_over(&alpha_ids, max_len, "", "", &ctx, &acc);
     phase(&ctx, "L1b");
     // ---- L1b: per-kind families: fixed brackets, richer inner alphabets
